@@ -102,6 +102,10 @@ type SpecDB struct {
 	Pattern []*FuncSpec          // keys containing '*' wildcards
 	Defines map[string]*Define
 	Macros  map[string]*Macro
+	// Verify holds in-repo contracts of functions whose call-site behaviour is given by an
+	// assumed contract (frame) in the dependency library: the function is still verified
+	// against its own clauses (e.g. a safety sweep), callers keep using the assumed frame.
+	Verify map[string]*FuncSpec
 }
 
 // Macro: "macro NAME(a, b) = expr" — expanded by evaluating expr with a, b bound.
@@ -226,6 +230,10 @@ func parseSpecText(db *SpecDB, text, file, prefix string, assumed bool) error {
 					db.Pattern = append(db.Pattern, fs)
 				}
 				if old, ok := db.Funcs[k]; ok && !strings.Contains(k, "*.") {
+					if old.Assumed && !assumed {
+						db.Verify[k] = fs
+						continue
+					}
 					return errf("duplicate contract for %s (first at %s:%d)", k, old.File, old.Line)
 				}
 				db.Funcs[k] = fs
@@ -451,7 +459,7 @@ func sortName(s string) string {
 }
 
 func newSpecDB() *SpecDB {
-	return &SpecDB{Funcs: map[string]*FuncSpec{}, Defines: map[string]*Define{}, Macros: map[string]*Macro{}}
+	return &SpecDB{Funcs: map[string]*FuncSpec{}, Defines: map[string]*Define{}, Macros: map[string]*Macro{}, Verify: map[string]*FuncSpec{}}
 }
 
 // loadDepSpecs reads /verif/contracts/deps/*.spec.
